@@ -122,6 +122,8 @@ def run(prop, tier):
             a.append("--return_only_address")
         if inv["macros"]:
             a += ["--macros"] + [files[m] for m in inv["macros"]]
+        if inv["dbg"] == "T":
+            a.append("--debug")
         return a
 
     env = dict(os.environ, PYTHONPATH=os.path.join(REPO, "src"), PYTHONDONTWRITEBYTECODE="1")
@@ -162,7 +164,7 @@ def run(prop, tier):
                 api["list"] = o["res"]["L" + key]
                 api["found"] = o["res"]["B" + key]
         cases.append({"pat": inv["pat"], "src": inv["src"], "all": inv["all"], "addr": inv["addr"], "macros": inv["macros"],
-                      "pair": inv["pair"], "api": api, "cli": {"exit": clis[n]["exit"], "lines": clis[n]["lines"]}})
+                      "pair": inv["pair"], "dbg": inv["dbg"], "api": api, "cli": {"exit": clis[n]["exit"], "lines": clis[n]["lines"]}})
     path = os.path.join(scratch(), "c20.cases.json")
     with open(path, "w") as f:
         json.dump({"cases": cases}, f)
